@@ -267,6 +267,11 @@ func (l *LightClientAttackEvidence) GetByzantineValidators(commonVals *Validator
 			}
 
 			_, val := l.ConflictingBlock.ValidatorSet.GetByAddress(sigA.ValidatorAddress)
+			if val == nil {
+				// the address of a commit signature is not authenticated (nil votes are not
+				// verified at all): it may name nobody in the validator set
+				continue
+			}
 			validators = append(validators, val)
 		}
 		sort.Sort(ValidatorsByVotingPower(validators))
